@@ -352,6 +352,20 @@ func (s *scope) setInstance(descriptor *Descriptor, key instanceKey, instance an
 	}
 }
 
+// cacheInstance caches an instance under one more identity without tracking it for disposal again.
+func (s *scope) cacheInstance(descriptor *Descriptor, key instanceKey, instance any) {
+	switch descriptor.Lifetime {
+	case Singleton:
+		s.rootProvider.cacheSingleton(key, instance)
+	case Scoped:
+		s.instancesMu.Lock()
+		if s.instances != nil { // nil once the scope has been closed
+			s.instances[key] = instance
+		}
+		s.instancesMu.Unlock()
+	}
+}
+
 // closeLate disposes an instance that no Close of its owner will reach any more.
 // Its error, or a panic in it, has nowhere to be reported.
 func closeLate(d Disposable) {
@@ -452,13 +466,7 @@ func (s *scope) createInstance(descriptor *Descriptor) (any, error) {
 			}
 		}
 
-		key := instanceKey{
-			Type:  descriptor.Type,
-			Key:   descriptor.Key,
-			Group: descriptor.Group,
-		}
-
-		s.setInstance(descriptor, key, instance)
+		s.setAliasedInstance(descriptor, instance)
 		return instance, nil
 	}
 
@@ -625,6 +633,13 @@ func (s *scope) createInstance(descriptor *Descriptor) (any, error) {
 		}
 	}
 
+	s.setAliasedInstance(descriptor, instance)
+	return instance, nil
+}
+
+// setAliasedInstance stores the one instance of a single-output registration: under the registration itself and,
+// when it was registered under several interface aliases, under every alias. It is tracked for disposal once.
+func (s *scope) setAliasedInstance(descriptor *Descriptor, instance any) {
 	key := instanceKey{
 		Type:  descriptor.Type,
 		Key:   descriptor.Key,
@@ -632,7 +647,20 @@ func (s *scope) createInstance(descriptor *Descriptor) (any, error) {
 	}
 
 	s.setInstance(descriptor, key, instance)
-	return instance, nil
+
+	for _, alias := range descriptor.outputs {
+		if alias == nil || alias == descriptor {
+			continue
+		}
+
+		aliasKey := instanceKey{
+			Type:  alias.Type,
+			Key:   alias.Key,
+			Group: alias.Group,
+		}
+
+		s.cacheInstance(alias, aliasKey, instance)
+	}
 }
 
 // FromContext retrieves a Scope from the context.
